@@ -21,7 +21,7 @@ RULE = ("Hypothesis generates noisy determined networks (C06 recipes, errors of 
         "Non-trivial = a transformation that really changes the file (a direction set for rotations / frames, >= 2 clusters "
         "for permutations); distinct by sha1 of (network, transformation).")
 ASSUMPTIONS = ["equivalence is defined on the truth model: the same physical errors are re-expressed (angular errors change sign with the angle sense)",
-               "frame changes are applied to networks whose coordinate / vector clusters have isotropic diagonal covariances",
+               "under a frame change the covariance matrix of a coordinate / vector cluster transforms as C' = T C T' with the signed permutation T of its x, y components",
                "tolerances: 2e-6 m coordinates, 2e-3 mm / 2e-2 cc residuals, 1e-5 relative on standard deviations and v'Pv"]
 REQUIRED_CLASSES = ["tr=" + t for t in TRANSFORMS]
 
@@ -37,7 +37,7 @@ NAMES = ["Ž1", "bod č.7", "αβγ", "点A", "P_01", "x-y", "Q.2", "Ünï", "a 
 def case(draw):
     tr = draw(st.sampled_from(TRANSFORMS))
     # renaming / reordering: larger networks, so that containers keyed by point id hold enough ids for an ordering slip to show
-    net = draw(gen_net.determined_network(noise=1, isotropic=(tr == "frame"), allow_cov=(tr != "frame") or draw(st.booleans()),
+    net = draw(gen_net.determined_network(noise=1, isotropic=False, allow_cov=(tr != "frame") or draw(st.booleans()),
                                           n_max=14 if tr in ("rename", "permute") else 8))
     alg = draw(st.sampled_from(ALGS))
     par = {}
@@ -165,6 +165,7 @@ def transform(c):
                 # mirrored angular errors: covariances between horizontal angular and other rows change sign
                 dsg = np.array([-1.0 if o["t"] in ("direction", "angle", "azimuth") else 1.0 for o in cl["obs"]])
                 cl["cov"] = {"band": cl["cov"]["band"], "C": (np.array(cl["cov"]["C"]) * np.outer(dsg, dsg)).tolist()}
+            T = []      # (row, row) blocks of the component transformation of coordinate / vector clusters
             for o in cl["obs"]:
                 if cl["k"] == "obs" and o["t"] in ("direction", "angle", "azimuth") and flip:
                     o["e"] = -o["e"]
@@ -172,6 +173,23 @@ def transform(c):
                     ev = o["e"][0] * ux + o["e"][1] * uy
                     o["e"][0] = float(ev @ ux2)
                     o["e"][1] = float(ev @ uy2)
+                    R = np.array([[ux @ ux2, uy @ ux2], [ux @ uy2, uy @ uy2]], float)   # (x,y) -> (x',y'): a signed permutation
+                    T.append(R)
+                    if len(o["e"]) == 3:
+                        T.append(np.eye(1))
+                elif cl["k"] in ("coords", "vectors"):
+                    T.append(np.eye(len(o["e"])))
+            if cl["k"] in ("coords", "vectors") and cl.get("cov") is not None:
+                # the covariance matrix is given in the frame of the file: C' = T C T' (the band width may change)
+                n_ = sum(b.shape[0] for b in T)
+                TT = np.zeros((n_, n_))
+                k_ = 0
+                for b in T:
+                    TT[k_:k_ + b.shape[0], k_:k_ + b.shape[0]] = b
+                    k_ += b.shape[0]
+                C2 = TT @ np.array(cl["cov"]["C"], float) @ TT.T
+                nzb = [abs(i - j) for i in range(n_) for j in range(n_) if C2[i, j] != 0.0]
+                cl["cov"] = {"band": int(max(nzb) if nzb else 0), "C": C2.tolist()}
     return n2, idmap
 
 
